@@ -9,6 +9,7 @@ package home
 
 import (
 	"bytes"
+	"encoding/json"
 	"fmt"
 	"os"
 	"path/filepath"
@@ -50,6 +51,14 @@ func zzC13LoadOne(t *testing.T, v int, defaults []byte) (what string) {
 		t.Fatalf("golden %d: %v", v, err)
 	}
 
+	return zzC13LoadBody(t, v, body, defaults, true)
+}
+
+// zzC13LoadBody loads one document of schema v through the real parseConfig.
+// golden enables the checks that only hold for the repository's golden files.
+func zzC13LoadBody(t *testing.T, v int, body, defaults []byte, golden bool) (what string) {
+	var err error
+
 	dir := t.TempDir()
 	confPath := filepath.Join(dir, "AdGuardHome.yaml")
 	if err = os.WriteFile(confPath, body, 0o600); err != nil {
@@ -81,6 +90,8 @@ func zzC13LoadOne(t *testing.T, v int, defaults []byte) (what string) {
 	switch {
 	case config.SchemaVersion != last:
 		return fmt.Sprintf("loaded schema_version %d", config.SchemaVersion)
+	case !golden:
+		// Nothing more is known about the values.
 	case config.HTTPConfig.Address.Port() != 3000:
 		return fmt.Sprintf("loaded http.address %s, the golden documents bind port 3000", config.HTTPConfig.Address)
 	case len(config.Users) != 1 || config.Users[0].Name != "testuser":
@@ -125,4 +136,32 @@ func TestZZVerifC13Loader(t *testing.T) {
 		}
 		w.put(map[string]any{"kind": "pass", "v": v})
 	}
+
+	// Valid documents of the record-list families, rendered by the harness
+	// of package configmigrate.
+	if os.Getenv("VERIF_IN") == "" {
+		return
+	}
+
+	type doc struct {
+		Devs any    `json:"devs"`
+		Body string `json:"body"`
+		ID   int    `json:"id"`
+		V    int    `json:"v"`
+	}
+	zzReadNDJSON(t, "VERIF_IN", func(line []byte) {
+		d := &doc{}
+		if err = json.Unmarshal(line, d); err != nil {
+			t.Fatalf("bad document line: %v", err)
+		}
+
+		what := zzC13LoadBody(t, d.V, []byte(d.Body), defaults, false)
+		if what != "" && zzC13LoadBody(t, d.V, []byte(d.Body), defaults, false) == what {
+			w.put(map[string]any{"kind": "bad", "family": true, "id": d.ID, "v": d.V, "devs": d.Devs,
+				"what": what, "input": d.Body})
+
+			return
+		}
+		w.put(map[string]any{"kind": "pass", "family": true, "id": d.ID, "v": d.V})
+	})
 }
